@@ -1016,7 +1016,7 @@ func runC04(c *Ctx, pr *PropertyRun) {
 	p := c.P
 	pr.Explanation = "Decided: (1) the precondition truth table (E2), extracted from checkConditionalMatches and from the public ConditionalMatch.MatchETag: resource state {absent, present with a non-empty tag}, each header {unset, *, a quoted string equal to the current tag, a quoted string different from it, not a quoted string}: the operation is allowed iff (If-Match unset or (present and (* or equal))) and (If-None-Match unset or absent or (different and not *)); otherwise 412; 400 for a tag that is not a quoted string when there is a resource to compare it with; when both headers fail differently either code is accepted; that the check comes before any destructive call is C02.precondition-first, re-checked here; " +
 		"(2) headers to options (E1): in the WebDAV, CalDAV and CardDAV adapters the value of Header.Get(\"If-Match\") reaches the option field IfMatch and \"If-None-Match\" reaches IfNoneMatch, through conversions only, and the options reach the backend call; (3) one tag codec: FileInfo.ETag has a single producer, every ETag header and getetag property is written from it through ETag.String / the ETag type (shared with C16.pairs). NOT decided: equality of the tag strings actually produced for the same unmodified resource (needs the file's mtime at run time); arbitrary tag bytes through %q/Unquote (standard-library contract)."
-	pr.Assumptions = append(pr.Assumptions, "a present resource has a non-empty entity tag (it is Sprintf(\"%x%x\", mtime, size))", "strconv.Unquote is modelled as: fails, or yields an opaque string")
+	pr.Assumptions = append(pr.Assumptions, "a present resource has a non-empty entity tag — not taken on trust: decided by C04.one-codec (every store to FileInfo.ETag in its single producer is definitely non-empty)", "strconv.Unquote is modelled as: fails, or yields an opaque string")
 	pr.Trusted = append(pr.Trusted, "golang.org/x/tools/go/ssa v0.29.0")
 
 	tbl := NewRule("C04", "C04.table", "precondition truth table of checkConditionalMatches and ConditionalMatch.MatchETag (E2)")
